@@ -300,13 +300,39 @@ func findAllFinished(c *Ctx, id string) *allFinished {
 // after: the instruction runs only after the close - it is dominated by it in the same function, or lives in a
 // function whose only call site does (three levels).
 func (a *allFinished) after(in ssa.Instruction) bool {
+	// the close and the instruction, each lifted through sole call sites, meet in one function where the (lifted) close
+	// dominates the (lifted) instruction: close(runRes) may live in one helper and the cancel in the next
+	closeChain := a.chain()
 	for depth := 0; depth < 4 && in != nil; depth++ {
-		if in.Parent() == a.fn {
-			return in != a.close && InstrDominates(a.close, in)
+		for _, c := range closeChain {
+			if in.Parent() == c.Parent() {
+				return in != c && InstrDominates(c, in)
+			}
 		}
 		in = SoleCallSite(in.Parent())
 	}
 	return false
+}
+
+// chain: the close, the call of its function, the call of that function's caller ... up to (not including) the
+// function that loops (the await loop).
+func (a *allFinished) chain() []ssa.Instruction {
+	var out []ssa.Instruction
+	var at ssa.Instruction = a.close
+	for d := 0; at != nil && d < 4; d++ {
+		hasLoop := false
+		for _, b := range at.Parent().Blocks {
+			if BlockCanReach(b, b) {
+				hasLoop = true
+			}
+		}
+		if hasLoop && d > 0 {
+			break
+		}
+		out = append(out, at)
+		at = SoleCallSite(at.Parent())
+	}
+	return out
 }
 
 // reaches: calling g runs the all-finished action (g is its function or statically calls it, three levels).
@@ -337,12 +363,25 @@ func (a *allFinished) reaches(g *ssa.Function) bool {
 
 // countAfter counts the events on the paths from the close to the return of its function (callees included).
 func (a *allFinished) countAfter(pred func(ssa.Instruction) bool) Interval {
-	return PathQuery{Fn: a.fn, Start: a.close, Exit: func(b *ssa.BasicBlock) bool { return ExitOf(b) == ExitReturn }, Weight: func(in ssa.Instruction) (int, int) {
-		if pred(in) {
-			return 1, 1
+	// after the close in its function, then after the call of that function in its caller, ... (see chain)
+	total := Interval{}
+	for i, at := range a.chain() {
+		iv := PathQuery{Fn: at.Parent(), Start: at, Exit: func(b *ssa.BasicBlock) bool { return ExitOf(b) == ExitReturn }, Weight: func(in ssa.Instruction) (int, int) {
+			if pred(in) {
+				return 1, 1
+			}
+			return 0, 0
+		}}.Count()
+		if iv.NoPath {
+			if i == 0 {
+				return iv
+			}
+			break
 		}
-		return 0, 0
-	}}.Count()
+		total.Min += iv.Min
+		total.Max += iv.Max
+	}
+	return total
 }
 
 // templateCacheRule: a cache of parsed templates must be keyed by something that determines the template text. The rule
